@@ -320,6 +320,38 @@ def solve_obligation(ob, timeout_ms, use_cvc5=True):
     return res
 
 
+def _small_model(solver, m):
+    """a counter-model is replayed on the real code: ask for one with short lists and short byte strings
+    (same solver state plus size bounds, 6 s); None if there is none within the bounds"""
+    try:
+        bounds = []
+        for d in m.decls():
+            if d.arity() != 0:
+                continue
+            c = d()
+            if c.sort() == z3.IntSort() and (d.name().endswith('_len') or d.name().endswith('_max_items')):
+                bounds.append(c <= 8)
+            elif c.sort() == z3.IntSort() and d.name().endswith('_max_item_size'):
+                bounds.append(c <= 1024)
+            elif z3.is_seq(c) and not z3.is_string(c):
+                bounds.append(z3.Length(c) <= 80)
+        if not bounds:
+            return None
+        solver.push()
+        try:
+            solver.set('timeout', 6000)
+            for b in bounds:
+                solver.add(b)
+            if solver.check() == z3.sat:
+                return solver.model()
+        finally:
+            solver.pop()
+            solver.set('timeout', 3000)
+    except Exception:  # noqa: BLE001
+        pass
+    return None
+
+
 class IncSolver:
     n_models = 0
 
@@ -391,6 +423,7 @@ class IncSolver:
                 if IncSolver.n_models < 6:
                     IncSolver.n_models += 1
                     m = self.s.model()
+                    m = _small_model(self.s, m) or m
                     res['model'] = {str(d): str(m[d])[:200] for d in m.decls() if '!' not in d.name()}
                     from .replay import concretize
                     res['inputs'] = concretize(m)
